@@ -264,6 +264,9 @@ def c11(ctx):
     # the lookup every count goes through: a miss must be a quiet `None` for every edge set, incl. an empty axis (C13's R20)
     RH.rule_indices_of_tree(ctx, prog)
     RH.rule_bins_len(ctx, prog)
+    # … and the premise of that lookup: every Edges value is strictly increasing by construction (a duplicate edge is a zero-width
+    # bin: the counts array no longer has one cell per left-closed/right-open bin)
+    RH.rule_edges_constructor(ctx, prog)
     return dict(
         level="proof",
         explanation="Accounting structure of the histogram on top of the one lookup primitive (R20: decision tree of Edges::indices_of = "
@@ -292,6 +295,9 @@ def c13(ctx):
     RH.rule_lookup_delegation(ctx, prog)
     RH.rule_grid_index_of(ctx, prog)
     RH.rule_indices_of_tree(ctx, prog)
+    # "built from any collection … exactly the distinct input values": the constructors and accessors see the *logical* elements of
+    # an array argument – no raw-buffer / memory-order API (an owned array narrowed by slice_move keeps the rest of its allocation)
+    nsites = RL.rule_r1(ctx, prog, scope=lambda b_: "histogram::bins" in b_.key or "histogram::grid" in b_.key)
     return dict(
         level="other",
         explanation="(R20) the decision tree of Edges::indices_of, extracted path by path from MIR, equals the left-closed/right-open "
@@ -428,6 +434,12 @@ def c12(ctx):
     RH.rule_gridbuilder(ctx, prog)
     from . import rules_divisor as RD
     RD.rule_divisors(ctx, prog)
+    # the property's last clause – a histogram over the built grid counts all n observations – rests on the accounting structure
+    # of Histogram (C11's R16/R11): one increment of counts[grid.index_of(row)] per accepted row, counts = zeros(grid.shape())
+    H = "histogram::histograms::Histogram"
+    nh = RH.rule_field_own(ctx, prog, H, "counts", ["Histogram::<A>::add_observation", "Histogram::<A>::new"], constructors=["Histogram::<A>::new"])
+    ctx.floor("R11", nh, 1, "writes/borrows/constructions of Histogram.counts")
+    RH.rule_r16(ctx, prog)
     return dict(
         level="other",
         explanation="(R17) in EquiSpaced the edge whose comparison with max ends the counting in n_bins() and the edge pushed by build() are "
